@@ -63,3 +63,17 @@ Example C10_nonvacuous :
   dec_checked_rem (mkdec (MAXC - 5) 0) (mkdec MAXC 1) = Val None /\
   dec_rem (mkdec 7 0) (mkdec 0 5) = Panic.
 Proof. vm_compute. repeat split. Qed.
+
+(* ---- the Decimal-level functions as translated from /repo's current source (gen/GenDec.v) ---- *)
+From FP Require Import GenDec GenTieDecRem.
+
+Theorem C10_source_rem_accepted :
+  forall pf m x y, wf x = true -> wf y = true ->
+    acc_dd m Brem x y 0 (out_dec (g_Rem_rem pf x y)) = true /\
+    acc_dd m Bcrem x y 0 (out_odec (g_CheckedRem_checked_rem pf x y)) = true.
+Proof. exact src_rem_acc. Qed.
+Check C10_source_rem_accepted :
+  forall pf m x y, wf x = true -> wf y = true ->
+    acc_dd m Brem x y 0 (out_dec (g_Rem_rem pf x y)) = true /\
+    acc_dd m Bcrem x y 0 (out_odec (g_CheckedRem_checked_rem pf x y)) = true.
+Print Assumptions C10_source_rem_accepted.
